@@ -7,6 +7,8 @@ From VM Require Import Prelude.MachInt Prelude.Tok.
 
 Record rgeom := { g_start : N; g_size : N; g_ps : N; g_tracked : bool }.
 Record sobs := { s_ok : bool; s_count : N;
+                 s_late : N;  (* pages holding a byte that changed AFTER the last mark_dirty call covering the
+                                 page (observed by a probing Bitmap implementation; 0 where not probed) *)
                  s_dirty : list (list bool);        (* per region: page bits after the step (with margin) *)
                  s_changed : list (list (N * N)) }. (* per region: runs (offset, len) of bytes that changed *)
 
@@ -74,7 +76,12 @@ Fixpoint zip3all (f : rgeom -> list bool -> list bool -> list (N * N) -> bool)
   | _, _, _, _ => false
   end.
 
+(* ... and no byte changes after the last mark_dirty call that covers its page: "reported dirty
+   afterwards" has to survive a bitmap reset that falls between the two (the property quantifies over
+   histories that interleave writes with resets; a consumer that resets and then copies the page
+   between a premature mark and the store would miss the change for good) *)
 Definition ok_C05_step (k : skind) (gs : list rgeom) (before : list (list bool)) (o : sobs) : bool :=
+  match k with KReset => true | _ => s_late o =? 0 end &&
   zip3all (ok_C05_region k) gs before (s_dirty o) (s_changed o).
 Definition ok_C16_step (k : skind) (gs : list rgeom) (before : list (list bool)) (o : sobs) : bool :=
   zip3all (ok_C16_region k) gs before (s_dirty o) (s_changed o).
